@@ -61,7 +61,7 @@ def model_stage(ctx):
 
 def generate(ctx):
     q = ctx.quick()
-    want = 4 if q else 50
+    want = 6 if q else 50
     hs, seen = [], set()
     rounds = 0
     while len(hs) < want and rounds < 4:
@@ -151,7 +151,7 @@ def run(ctx):
     os.makedirs(ind)
     json.dump(hs, open(os.path.join(ind, "histories.json"), "w"))
     res = ctx.go_driver("c05tokens", "TestDriver", timeout=3000,
-                        env={"VERIF_IN": ind, "VERIF_RANDOM_HIST": 4 if q else 60, "VERIF_RANDOM_BLOCKS": 60 if q else 250})
+                        env={"VERIF_IN": ind, "VERIF_RANDOM_HIST": 6 if q else 60, "VERIF_RANDOM_BLOCKS": 80 if q else 250})
     ctx.absorb(res)
     events = vlib.read_ndjson(os.path.join(res["_out"], "trace.ndjson"))
     ctx.extra["trace_events"] = len(events)
